@@ -1,6 +1,7 @@
 package main
 
 import (
+	"reflect"
 	"go/ast"
 	"os/exec"
 	"regexp"
@@ -211,6 +212,7 @@ func cmdCheck(args []string) int {
 	obls = append(obls, eng.nonBlockingObligations(*prop)...)
 	obls = append(obls, eng.storedFieldsObligations(*prop)...)
 	obls = append(obls, eng.initValuesObligations(*prop)...)
+	obls = append(obls, eng.fieldTagObligations(*prop)...)
 	tGen := time.Since(t0).Seconds() - tLoad
 	tmp, _ := os.MkdirTemp("", "verif-smt-")
 	if !*keep {
@@ -1323,4 +1325,52 @@ func parentKeyOf(root ast.Node, lit *ast.BasicLit) (isKey bool, found bool) {
 		return true
 	})
 	return
+}
+
+// fieldTagObligations: "fieldtag T.f KEY VALUE" rules, decided on go/types.
+func (eng *Engine) fieldTagObligations(tag string) []*Obligation {
+	var out []*Obligation
+	var paths []string
+	for p := range eng.ld.pkgSpecs {
+		paths = append(paths, p)
+	}
+	sort.Strings(paths)
+	for _, p := range paths {
+		for _, rule := range eng.ld.pkgSpecs[p].FieldTags {
+			has := false
+			for _, t := range rule.Tags {
+				if t == tag {
+					has = true
+				}
+			}
+			if !has {
+				continue
+			}
+			pk := eng.ld.byPath[p]
+			o := &Obligation{Name: "types#" + rule.Label, Func: "types of " + p, Kind: "structural", Label: rule.Label, Tags: rule.Tags,
+				Pos: fmt.Sprintf("%s:%d", rule.File, rule.Line), Structural: true, Guard: "true",
+				Goal: fmt.Sprintf("field %s is read under %s:%q", rule.Callee, rule.Allowed[0], rule.Allowed[1])}
+			parts := strings.SplitN(rule.Callee, ".", 2)
+			o.StructMsg = "no such field"
+			if obj := pk.Types.Scope().Lookup(parts[0]); obj != nil && len(parts) == 2 {
+				if st, ok := obj.Type().Underlying().(*types.Struct); ok {
+					for i := 0; i < st.NumFields(); i++ {
+						if st.Field(i).Name() == parts[1] {
+							got := reflect.StructTag(st.Tag(i)).Get(rule.Allowed[0])
+							if i2 := strings.Index(got, ","); i2 >= 0 {
+								got = got[:i2]
+							}
+							if got == rule.Allowed[1] {
+								o.StructOK, o.StructMsg = true, ""
+							} else {
+								o.StructMsg = fmt.Sprintf("the tag says %s:%q", rule.Allowed[0], got)
+							}
+						}
+					}
+				}
+			}
+			out = append(out, o)
+		}
+	}
+	return out
 }
